@@ -57,8 +57,8 @@ type coreSub struct {
 }
 
 func core(r *vk.Run) {
-	n := r.Pick(200, 5000)
-	steps := 300
+	n := r.Pick(120, 6000)
+	steps := r.Pick(200, 300)
 	for i := 0; i < n; i++ {
 		if !r.Mine(i) {
 			continue
@@ -235,6 +235,9 @@ func core(r *vk.Run) {
 			r.Eval(1)
 			r.Count("core-ops", 1)
 			r.Distinct(kind + "." + method)
+			if in != nil {
+				r.Distinct(kind + "." + method + ":" + vk.JSON(in)) // distinct written messages
+			}
 			if !verify(method) {
 				break
 			}
